@@ -432,6 +432,85 @@ func runC06(c *Ctx) {
 	// receipts on every accepting path of the validator: decided by C01's commitment rule, shared here because the
 	// clause "cumulative gas equals the sum over the receipts" belongs to this property too
 	c.Borrow("C01", runC01, map[string]string{"C01-R2": "C06-R5"})
+
+	c.Rule("C06-R6", "the refund counter starts at zero in every transaction: the per-transaction boundary resets it on every path", func() {
+		// refundGas caps the refund by the counter accumulated in StateDB; the counter is reset by Finalise, which
+		// ApplyTransaction reaches directly (Byzantium receipts) or through IntermediateRoot (earlier receipts). If
+		// only one of the two routes resets it, the previous transaction's refund is granted again to the next one.
+		var resets func(fn *ssa.Function, depth int) (bool, string)
+		resets = func(fn *ssa.Function, depth int) (bool, string) {
+			if fn == nil || depth > 3 || len(fn.Blocks) == 0 {
+				return false, "not resolved"
+			}
+			for _, r := range c.Facts(fn).AllReturns() {
+				ok := r.State.lits["store:StateDB#0.refund=0"]
+				if !ok {
+					for l := range r.State.lits {
+						if m := mustRe(`^called:StateDB#0\.(\w+)\(`).FindStringSubmatch(l); m != nil {
+							if cal := c.FnOpt("core/state:(*StateDB)." + m[1]); cal != nil && cal != fn {
+								if y, _ := resets(cal, depth+1); y {
+									ok = true
+								}
+							}
+						}
+					}
+				}
+				if !ok {
+					return false, "a path of " + shortFn(fn) + " returns without resetting StateDB.refund"
+				}
+			}
+			return true, ""
+		}
+		for _, n := range []string{"Finalise", "IntermediateRoot", "Commit"} {
+			fn := c.Fn("core/state:(*StateDB)." + n)
+			ok, why := resets(fn, 0)
+			if n == "Commit" {
+				// Commit defers the reset
+				ok = ok || func() bool {
+					for _, r := range c.Facts(fn).AllReturns() {
+						if !r.State.lits["defer:StateDB.clearJournalAndRefund"] {
+							return false
+						}
+					}
+					ok2, _ := resets(c.Fn("core/state:(*StateDB).clearJournalAndRefund"), 1)
+					return ok2
+				}()
+			}
+			c.Ob("C06-R6", "StateDB."+n+" resets the refund counter on every path", c.FnPos(fn), ok, why)
+		}
+		at := c.Fn("core:ApplyTransaction")
+		c.MustOnAccept("C06-R6", at, -1, false, []LitReq{
+			{Name: "an applied transaction ends with Finalise or IntermediateRoot (refund counter and journal reset)", Re: `^called:StateDB#0\.(Finalise|IntermediateRoot)\(.*\)$`},
+		})
+		// nothing else writes the counter except the journalled AddRefund and its undo
+		// (an additional reset to zero at a boundary is harmless; a non-zero value comes only from these)
+		grow := map[string]bool{"(*core/state.StateDB).AddRefund": true, "(core/state.refundChange).undo": true, "(*core/state.StateDB).Copy": true}
+		nw := 0
+		for _, fn := range c.SrcFns {
+			if fn.Pkg == nil || fn.Pkg.Pkg.Path() != modPath+"/core/state" {
+				continue
+			}
+			for _, b := range fn.Blocks {
+				for _, ins := range b.Instrs {
+					st, ok := ins.(*ssa.Store)
+					if !ok {
+						continue
+					}
+					fa, ok := st.Addr.(*ssa.FieldAddr)
+					if !ok || fieldName(fa) != "refund" || typeShort(fa.X.Type()) != "StateDB" {
+						continue
+					}
+					nw++
+					if k, isC := constInt(st.Val); isC && k == 0 {
+						continue
+					}
+					c.Ob("C06-R6", shortFn(fn)+": a non-zero refund counter is written only by AddRefund, its undo and Copy", c.Position(st.Pos()), grow[shortFn(fn)], c.termOf(fn, st.Val))
+				}
+			}
+		}
+		c.Ob("C06-R6", "writers of the refund counter found", "", nw >= 3, fmt.Sprintf("%d", nw))
+	})
+	c.Min("C06-R6", 5)
 }
 
 // storeIs: every store in fn to a struct field named `field` stores a value matching re; at least one exists.
